@@ -10,6 +10,7 @@ def udpPayload (n seed : Nat) : Bytes :=
 structure USt where
   w : World := {}
   sts : List String := []     -- newest first
+  snaps : List (List Nat) := []   -- after each `w`: number of events reported per socket (newest first)
 
 def stStr : Status → String
   | .sent => "S"
@@ -46,7 +47,7 @@ def udpOp (u : USt) (op : String) : Option USt :=
   -- a listener with receive_broadcasts: another receive path in the adapter, the same contract
   | "B" => if rest = "" then some { u with w := step u.w .openListener } else none
   | "R" => if rest = "" then some { u with w := step u.w .openRaw } else none
-  | "C" =>
+  | "C" | "c" =>   -- `c`: the harness does not poll before the next `w`
     match rest.toNat? with
     | some j => if j < u.w.socks.length then some { u with w := step u.w (.openConnected j) } else none
     | none => none
@@ -58,7 +59,7 @@ def udpOp (u : USt) (op : String) : Option USt :=
         match s.kind with
         | .connected p =>
           let r := send u.w ⟨i, p⟩ (udpPayload n seed)
-          some { w := r.1, sts := stStr r.2 :: u.sts }
+          some { u with w := r.1, sts := stStr r.2 :: u.sts }
         | _ => none
       | none => none
     | _ => none
@@ -72,7 +73,7 @@ def udpOp (u : USt) (op : String) : Option USt :=
           match ep? with
           | some ep =>
             let r := send u.w ep (udpPayload n seed)
-            some { w := r.1, sts := stStr r.2 :: u.sts }
+            some { u with w := r.1, sts := stStr r.2 :: u.sts }
           | none => none
         | none => none
       else none
@@ -88,12 +89,16 @@ def udpOp (u : USt) (op : String) : Option USt :=
             let st := match w'.log.getLast? with
               | some r => stStr r.status
               | none => "?"
-            some { w := w', sts := st :: u.sts }
+            some { u with w := w', sts := st :: u.sts }
           else none
         | none => none
       else none
     | _ => none
-  | "w" => if rest = "" then some { u with w := pollAll u.w } else none
+  | "w" =>
+    if rest = "" then
+      let w' := pollAll u.w
+      some { u with w := w', snaps := (w'.socks.map (·.events.length)) :: u.snaps }
+    else none
   | "k" =>   -- a raw peer goes away (its address stays reserved)
     match rest.toNat?, rest.toNat?.bind (fun j => u.w.socks[j]?) with
     | some j, some s => if s.kind = .raw ∧ s.alive then some { u with w := step u.w (.close j) } else none
@@ -113,15 +118,22 @@ def udpRun (ops : List String) : Option USt :=
     | some u => if op = "" then none else udpOp u op
     | none => none) (some { w := w0 })
 
-def showGroups (w : World) : List String :=
+/-- the pump (1-based) by which event number `idx` of socket `r` had been reported -/
+def pumpOf (snaps : List (List Nat)) (r idx : Nat) : Nat :=
+  match snaps.findIdx? (fun sn => sn.getD r 0 > idx) with
+  | some k => k + 1
+  | none => snaps.length + 1
+
+def showGroups (w : World) (snaps : List (List Nat)) : List String :=
   (List.range w.socks.length).flatMap (fun r =>
     match w.socks[r]? with
     | none => []
     | some s =>
+      let indexed := (List.range s.events.length).zip s.events
       (List.range w.socks.length).filterMap (fun src =>
-        let evs := s.events.filter (fun e => e.ep.addr == src)
+        let evs := indexed.filter (fun e => e.2.ep.addr == src)
         if evs.isEmpty then none
-        else some s!"{r}<{src}:[{",".intercalate (evs.map (fun e => showPayload e.data))}]"))
+        else some s!"{r}<{src}:[{",".intercalate (evs.map (fun e => s!"{showPayload e.2.data}@{pumpOf snaps r e.1}"))}]"))
 
 def runUdp (ws : List String) : String :=
   match ws with
@@ -130,7 +142,8 @@ def runUdp (ws : List String) : String :=
     | none => "bad-case"
     | some u =>
       let w := pollAll u.w
-      s!"st=[{",".intercalate u.sts.reverse}] {" ".intercalate (showGroups w)}"
+      let snaps := ((w.socks.map (·.events.length)) :: u.snaps).reverse
+      s!"st=[{",".intercalate u.sts.reverse}] {" ".intercalate (showGroups w snaps)}"
   | ["fl", k] =>
     match k.splitOn "-" with
     | [t, side] =>
